@@ -727,6 +727,29 @@ def add_retargets(rng, case, n=None, chains=False):
     return case
 
 
+def retarget_of_a_deleted_block(rng):
+    """the block a call / jump / conditional jump leads to is deleted whole (with or without a proxy) and its label is
+    retargeted to another function in the same context: while the batch runs, the label is held by the reference
+    cache only"""
+    kind = rng.choice(["call", "jmp", "jcc"])
+    text = [{"kind": "code", "func": 0, "entry": True, "insns": [["nop"]] * rng.randint(0, 2) + [[kind, "old"]], "syms": [{"name": "main", "at_end": False}]}]
+    if kind != "jmp":
+        text.append({"kind": "code", "func": 0, "insns": [["nop"]] * rng.randint(0, 1) + [["ret"]], "syms": [{"name": "after", "at_end": False}]})
+    text.append({"kind": "code", "func": 1, "entry": True, "insns": [["nop"]] * rng.randint(0, 2) + [["ret"]], "syms": [{"name": "old", "at_end": False}]})
+    if rng.random() < 0.6:
+        text.append({"kind": "code", "func": 2, "entry": True, "insns": [["nop"], ["ret"]], "syms": [{"name": "helper", "at_end": False}]})
+    text.append({"kind": "code", "func": 3, "entry": True, "insns": [["nop"]] * rng.randint(0, 1) + [["ret"]], "syms": [{"name": "new", "at_end": False}]})
+    i = next(k for k, d in enumerate(text) if d["syms"][0]["name"] == "old")
+    e = {"op": "delete", "block": i, "off": 0, "len": block_size(text[i]), "proxy": rng.random() < 0.5}
+    if e["proxy"] and rng.random() < 0.5:
+        e["fn"] = 1
+    edits = [e]
+    if rng.random() < 0.4:
+        edits.append({"op": "insert", "block": 0, "off": 0, "asm": "nop"})
+    rng.shuffle(edits)
+    return {"isa": "X64", "ff": "ELF", "text": text, "externs": ["ext_a"], "edits": edits, "retargets": [["old", rng.choice(["new", "new", "ext_a"])]]}
+
+
 PATCHES = [
     lambda rng, L, X: "movl $%d, %%eax" % fresh_imm(rng),
     lambda rng, L, X: "nop",
